@@ -230,7 +230,7 @@ func (c *Ctx) c19Rules() {
 						continue // range loop condition i+1 < len
 					}
 				}
-				extra = f.Cond.String()
+				extra = SafeString(f.Cond)
 			}
 			r.Check(extra == "", "C19.validate", name, "rule.Errors unconditional", posf(c, call), "every rule is evaluated for every submission", "a rule is evaluated only under an extra condition ("+extra+"): rules for absent fields would be skipped, e.g. a registration without a password field passes the password policy")
 			// every iteration of the rule loop reaches the call: no path from the loop body's
